@@ -83,6 +83,33 @@ CHECKS = {
        'base; extras are required only for siblings of selected entries), TLC; symlinked directories and '
        'filter_by_platform are not generated',
   design='5/C11'),
+ 'C08': dict(
+  technique='TLA+ design model of the regeneration state machine (Regen.tla: tree with directory mtimes, persistent '
+            'files, one action per file-system mutation, backend rule); TLC enumerates every history of the model up '
+            'to a bound with its predicted outcome (Regen_Gen.tla); histories replayed with real edits, real make / '
+            'reference ninja and the real bfg9000; each run compared with a fresh configure and validated by TLC '
+            'against the contract (Regen_Trace.tla)',
+  text='Every behaviour of the design model within the bound (all interleavings of add/remove/mkdir/rmdir/script edits '
+       'and runs of the regeneration step) is executed on a real project, plus seeded histories over six richer '
+       'project variants (recursive globs with extra/exclude, header_directory(include=), submodule + options.bfg, '
+       'pkg_config, missing base directory) and both backends; TLC decides for every run: success implies build files '
+       'equal to a fresh configure, valid edits never make regeneration fail, and a second run regenerates nothing.',
+  note='trusted: fresh configure into the same path as the oracle, stub compilers, tick barrier (no equal timestamps), '
+       'reference ninja for the Ninja backend; design-model/real disagreement is reported as spec_drift only',
+  design='5/C08'),
+ 'C10': dict(
+  technique='TLA+ design model with a Crash action between any two file-system mutations (Regen.tla) model-checked '
+            'with TLC; fault enumeration on the real code at every mutation point recorded by an interposition shim '
+            '(kill / ENOSPC), two follow-up attempts; histories validated by TLC (Regen_Trace.tla)',
+  text='TLC enumerates all crash points of the design model and names the windows that end in a silent stale success; '
+       'on the real code every mutation point (both sides of every open/close/remove/utime/makedirs below the build '
+       'directory) of a real `regenerate --lazy` started by make / reference ninja is used once as a kill point and, '
+       'where a call follows, as an ENOSPC point, over scenarios with find_files, pkg-config immediates and '
+       'install/test rules; each of the two following attempts must either fail visibly or leave the build file and '
+       'declared outputs equal to a fresh configure; a raising script must leave the build file byte-identical.',
+  note='trusted: the shim (harness/shim/sitecustomize.py, Python-level interposition: a kill is os._exit at a numbered '
+       'point, buffered data is lost), fresh configure as the oracle, stub compilers, reference ninja',
+  design='5/C10'),
 }
 
 NOT_YET = {}
